@@ -171,7 +171,7 @@ fn resource_rich() -> BoxedStrategy<E> {
             let (first, _) = it.next().unwrap();
             it.fold(first, |acc, (l, op)| match op { 0 => E::and(acc, l), 1 => E::or(acc, l), _ => E::list(acc, l) })
         }),
-        1 => gen::expr_over(leaf.boxed(), 5, 30, true),
+        1 => gen::related(gen::expr_over(leaf.boxed(), 5, 30, true), true),
     ]
     .boxed()
 }
